@@ -1,4 +1,5 @@
-import FxVerif.Proofs.C11Unslashed
+import FxVerif.Proofs.C11Tx
+import FxVerif.Proofs.C11Exact
 /-!
 # C11 — transferring delegation shares conserves shares, stake and reward entitlements
 
@@ -289,11 +290,11 @@ theorem exec_inv {c : FxVerif.Gen.C11.Cfg} (hg : good c = true) {s s' : State} {
     · split
       · exact hi w
       · exact hi w
-  | mature =>
+  | mature H =>
     simp only [State.exec] at h
     cases h
     refine ⟨fun w => ?_, rfl⟩
-    show SumInv s.nAcc (if (s.vs w).bonded then (s.vs w).endBlock s.height else ((s.vs w).endBlock s.height).matureVal)
+    show SumInv s.nAcc (if (s.vs w).bonded then (s.vs w).endBlock s.height else ((s.vs w).endBlock s.height).matureValTo H)
     have e : ∀ v : VS, SF v (v.endBlock s.height) := by
       intro v
       unfold VS.endBlock
@@ -301,10 +302,12 @@ theorem exec_inv {c : FxVerif.Gen.C11.Cfg} (hg : good c = true) {s s' : State} {
       split
       · exact ⟨rfl, rfl, rfl⟩
       · split <;> exact ⟨rfl, rfl, rfl⟩
-    have m : ∀ v : VS, SF v v.matureVal := by
+    have m : ∀ v : VS, SF v (v.matureValTo H) := by
       intro v
-      unfold VS.matureVal
-      split <;> exact ⟨rfl, rfl, rfl⟩
+      unfold VS.matureValTo VS.matureVal
+      split
+      · split <;> exact ⟨rfl, rfl, rfl⟩
+      · exact ⟨rfl, rfl, rfl⟩
     split
     · exact SumInv_of_SF (e _) (hi w)
     · exact SumInv_of_SF ((e _).trans (m _)) (hi w)
@@ -426,7 +429,7 @@ theorem allowance_exact {s s' : State} {sp f t v x : Nat} (h : s.exec cfg (.tran
 abbrev reachVS (nAcc h0 : Nat) (vals : List (Nat × Nat)) (ops : List Op) (w : Nat) : VS :=
   ((init nAcc h0 vals).run cfg ops).vs w
 
-/-- **refcount_invariant.**  After *any* sequence of the thirteen operation kinds, for every validator and every period
+/-- **refcount_invariant.**  After *any* sequence of the thirteen operation kinds (`mature H`: the unbonding period of everything begun at a height ≤ `H` passes — all of it or only a part), for every validator and every period
 `p` the reference count of the historical-rewards record `p` is exactly the number of delegator starting infos that
 point at `p`, plus one if `p` is the period just before the validator's current period, plus the number of slash
 events recorded for `p` (the SDK's `ReferenceCountInvariant` is the sum of these equations over `p`).  Consequently
@@ -797,6 +800,132 @@ theorem transfer_leaves_chain_unchanged {s s' : State} {sp f t v x : Nat} :
           · obtain ⟨a1, a2, a3, a4, a5, a6, a7, a8, a9, a10, a11, a12, a13, rf, rt, b1, b2, b3⟩ := transferOp_frame cfg_good h
             exact ⟨a1, a2, a3, a4, a5, a6, a7, a8, a10, a11, a12, a13, rf, rt, b1, b3, b2⟩
 
+/-! ### transactions that make several precompile calls; partial maturity -/
+
+/-- **grouped_transactions_refine.**  A transaction may call the staking precompile several times (a spender contract
+that loops over validators and calls `transferFromShares` for each): all-or-nothing when the contract lets a failure
+bubble up (`Tx.atomic`), call by call when it swallows failures (`Tx.each`).  Every state reached from genesis through
+ANY list of such transactions is the state reached by a plain list of single calls, all taken from the transactions
+(so a validator no transaction slashes is not slashed by the plain list either).  Hence every theorem of this file that
+is stated over `State.run` — `shares_sum_invariant`, `refcount_invariant`, `refcount_total`, `pool_invariant`,
+`distribution_accounting`, `still_withdrawable_iff`, `still_withdrawable_unslashed`, the transfer theorems — holds after
+grouped transactions as well. -/
+theorem grouped_transactions_refine (nAcc h0 : Nat) (vals : List (Nat × Nat)) (txs : List Tx) :
+    ∃ ops, (init nAcc h0 vals).runTx cfg txs = (init nAcc h0 vals).run cfg ops ∧ ∀ o, o ∈ ops → o ∈ flattenTx txs :=
+  runTx_reach cfg txs _
+
+/-- the two instances used most: Σ delegations = validator shares and the staking pools, after grouped transactions -/
+theorem invariants_after_grouped_transactions (nAcc h0 : Nat) (vals : List (Nat × Nat)) (hv : vals.length ≤ nAcc)
+    (txs : List Tx) (w : Nat) :
+    (((init nAcc h0 vals).runTx cfg txs).vs w).delSum nAcc = (((init nAcc h0 vals).runTx cfg txs).vs w).shares ∧
+    ((init nAcc h0 vals).runTx cfg txs).bondedPool =
+      sumTo ((init nAcc h0 vals).runTx cfg txs).nVal (fun w =>
+        if (((init nAcc h0 vals).runTx cfg txs).vs w).bonded then (((init nAcc h0 vals).runTx cfg txs).vs w).tokens else 0) := by
+  obtain ⟨ops, he, _⟩ := grouped_transactions_refine nAcc h0 vals txs
+  rw [he]
+  exact ⟨(shares_sum_invariant nAcc h0 vals hv ops w).1, (pool_invariant nAcc h0 vals ops).1⟩
+
+/-- **atomic_all_or_nothing.**  An all-or-nothing group either leaves the state exactly as it was, or every one of its
+calls succeeded in order on the state its predecessors left and the result is that of the plain sequence. -/
+theorem atomic_all_or_nothing (s : State) (os : List Op) :
+    s.stepTx cfg (.atomic os) = s ∨
+    ∃ s', s.execAll cfg os = .ok s' ∧ s.stepTx cfg (.atomic os) = s' ∧ s' = s.run cfg os ∧ AllOk cfg s os s' := by
+  cases he : s.execAll cfg os with
+  | error e => left; simp only [State.stepTx, he]
+  | ok s' =>
+    right
+    exact ⟨s', rfl, by simp only [State.stepTx, he], (execAll_ok_run os s s' he).symm, execAll_AllOk os s s' he⟩
+
+theorem multi_aux {sp f t : Nat} : ∀ (items : List (Nat × Nat)) (s s' : State), (items.map (·.1)).Nodup →
+    AllOk cfg s (multiFrom sp f t items) s' →
+    ∀ i, i ∈ items → i.2 ≤ s.allow i.1 f sp ∧ s'.allow i.1 f sp = s.allow i.1 f sp - i.2 ∧
+      (s'.vs i.1).tokens = (s.vs i.1).tokens ∧ (s'.vs i.1).shares = (s.vs i.1).shares ∧
+      (f ≠ t → ∃ fsh, (s.vs i.1).del f = some fsh ∧ i.2 * ONE ≤ fsh ∧
+        (s'.vs i.1).del f = (if fsh - i.2 * ONE = 0 then none else some (fsh - i.2 * ONE)) ∧
+        (s'.vs i.1).del t = some (((s.vs i.1).del t).getD 0 + i.2 * ONE)) := by
+  intro items
+  induction items with
+  | nil => intro s s' _ _ i hi; cases hi
+  | cons j js ih =>
+    intro s s' hnd h i hi
+    have hnd' : (js.map (·.1)).Nodup := (List.nodup_cons.mp hnd).2
+    have hj : ∀ k, k ∈ js → k.1 ≠ j.1 := by
+      intro k hk hc
+      have hm : k.1 ∈ js.map (·.1) := List.mem_map_of_mem hk
+      rw [hc] at hm
+      exact (List.nodup_cons.mp hnd).1 hm
+    cases h with
+    | cons he hr =>
+      rename_i s1
+      obtain ⟨a1, a2, a3, a4, v', rf, rt, a5, a6⟩ := transferFrom_exec cfg_good he
+      rcases List.mem_cons.mp hi with rfl | hin
+      · -- the head call: exact at its validator; the later calls are at other validators
+        obtain ⟨r1, r2⟩ := multiFrom_frame cfg_good js s1 s' hr hj
+        rw [r1, r2, a6, a2]
+        refine ⟨a1, rfl, ?_⟩
+        by_cases hne : f = t
+        · subst hne
+          obtain ⟨e, _, _⟩ := self_transfer_noop a5
+          rw [e]
+          exact ⟨rfl, rfl, fun hc => absurd rfl hc⟩
+        · obtain ⟨fsh, b1, b2, _, b4, b5, _, b7, b8⟩ := transfer_moves_exactly hne a5
+          exact ⟨b7, b8, fun _ => ⟨fsh, b1, b2, b4, b5⟩⟩
+      · -- a later call: the head call was at another validator
+        have hne : i.1 ≠ j.1 := hj i hin
+        have q := ih s1 s' hnd' hr i hin
+        rw [a4 i.1 hne, a3 i.1 f sp (by intro hc; exact hne hc.1)] at q
+        exact q
+
+/-- **multi_transferFrom_exact.**  A spender that, within ONE transaction, calls `transferFromShares(v, from, to, x)` for a
+list of pairwise different validators: if the transaction succeeds then for EVERY pair `(v, x)` of the list the spender's
+allowance at `v` was at least `x` and is decremented by exactly `x`, the validator's tokens and total shares are
+unchanged, and (for `from ≠ to`) exactly `x` shares left `from`'s delegation at `v` (removed iff nothing is left) and
+arrived in `to`'s — the calls do not interfere across validators; every validator not in the list keeps its record; and
+if any call fails nothing at all changes (`atomic_all_or_nothing`). -/
+theorem multi_transferFrom_exact {s s' : State} {sp f t : Nat} (items : List (Nat × Nat))
+    (hnd : (items.map (·.1)).Nodup) (h : s.execAll cfg (multiFrom sp f t items) = .ok s') :
+    (∀ i, i ∈ items → i.2 ≤ s.allow i.1 f sp ∧ s'.allow i.1 f sp = s.allow i.1 f sp - i.2 ∧
+      (s'.vs i.1).tokens = (s.vs i.1).tokens ∧ (s'.vs i.1).shares = (s.vs i.1).shares ∧
+      (f ≠ t → ∃ fsh, (s.vs i.1).del f = some fsh ∧ i.2 * ONE ≤ fsh ∧
+        (s'.vs i.1).del f = (if fsh - i.2 * ONE = 0 then none else some (fsh - i.2 * ONE)) ∧
+        (s'.vs i.1).del t = some (((s.vs i.1).del t).getD 0 + i.2 * ONE))) ∧
+    ∀ w, (∀ i, i ∈ items → i.1 ≠ w) → s'.vs w = s.vs w ∧ ∀ b d, s'.allow w b d = s.allow w b d :=
+  ⟨multi_aux items s s' hnd (execAll_AllOk _ s s' h),
+   fun _ hw => multiFrom_frame cfg_good items s s' (execAll_AllOk _ s s' h) hw⟩
+
+/-! ### a closed form under which the stake sanity check cannot fire on a slashed validator -/
+
+/-- **slash_fraction_closed_form.**  The fraction staking `Slash` records for a burn of `burn` out of `T` tokens
+(`effFraction burn T` = `min(1, QuoRoundUp(burn, T))`, the very expression of `Model.C11.VS.slash`) is never more than
+10⁻³⁶ below the true fraction `burn / T`, and it is at least the true fraction (`slashExact`) whenever digits 19…36 of the
+quotient are not all zero — i.e. unless the 36-decimal quotient `⌊burn·10³⁶ / T⌋` is a multiple of 10¹⁸ without the
+division being exact.  (`stake_sanity_reachable` is exactly such a case: `slashExact 100 (10²⁰ − 99) = false`.) -/
+theorem slash_fraction_closed_form {burn T : Nat} (hT : 0 < T) (hb : burn ≤ T) :
+    burn * ONE * ONE < effFraction burn T * ONE * T + T ∧
+    (quot36 burn T % ONE ≠ 0 → slashExact burn T = true) :=
+  ⟨effFraction_lower hT hb, slashExact_of_rem hT hb⟩
+
+/-- **sanity_closed_form.**  For a validator with total shares `S > 0`: take a delegator whose starting stake `st` is at
+most the exact token worth of its `sh` shares when the validator had `T0` tokens (`st·S ≤ sh·T0·10¹⁸` — true of the stake
+`TokensFromSharesTruncated(sh)` that `initializeDelegation` and `handlerTransferShares` write: `starting_stake_tight`), and
+ANY list of later slash events, each recorded with `effFraction burn T` for the tokens `T` the validator had at that
+moment and each *exact* (`slashExact`: recorded fraction ≥ true fraction — `slash_fraction_closed_form`), the validator's
+shares unchanged in between, ending at the validator's present tokens.  Then the stake `CalculateDelegationRewards`
+recomputes is at most `TokensFromShares(sh)`, so the SDK's sanity check (tolerance 3·10⁻¹⁸) does not fire: the delegator
+can withdraw and undelegate (`still_withdrawable_iff`).  What is NOT covered: delegations / undelegations of other
+delegators between the starting info and now (they change tokens and shares; an unbonding whose token amount is rounded
+up lowers every remaining delegator's worth by < 10⁻¹⁸ relative) and inexact slashes. -/
+theorem sanity_closed_form {v : VS} {evs : List SlashEv} {T0 sp st sh : Nat} (hS : 0 < v.shares)
+    (hc : SlashChain T0 evs v.tokens) (hp : incrPeriods sp evs) (ht : st * v.shares ≤ sh * T0 * ONE) :
+    stakeAfter evs sp st ≤ v.tokensFromShares sh ∧ ¬ (v.tokensFromShares sh + 3 < stakeAfter evs sp st) := by
+  have h := tight_le_tfs hS (chain_tight evs T0 v.tokens sp st hc hp ht)
+  exact ⟨h, by omega⟩
+
+/-- the stake written by `initializeDelegation` and by `handlerTransferShares` (`transfer_reinitialises`:
+`TokensFromSharesTruncated` of the party's shares) satisfies the hypothesis of `sanity_closed_form` -/
+theorem starting_stake_tight (v : VS) (sh : Nat) : v.tokensFromSharesTrunc sh * v.shares ≤ sh * v.tokens * ONE :=
+  tfsTrunc_tight v sh
+
 /-! ### non-vacuity: the hypotheses are satisfiable on concrete, non-trivial histories -/
 
 /-- a history with a new recipient, an existing recipient, a full transfer, a slash and a self-transfer -/
@@ -873,9 +1002,32 @@ example :
     let s := (init 4 1 [(200000000000000000000, 0), (200000000000000000000, 0)]).run cfg
       [.delegate 2 0 700, .redelegate 2 0 1 100, .undelegate 2 0 50, .jail 0, .block]
     isOk (s.exec cfg (.transfer 2 3 1 10)) = false ∧ s.notBondedPool = 200000000000000000600 ∧
-    isOk ((s.run cfg [.mature]).exec cfg (.transfer 2 3 1 10)) = true ∧ (s.run cfg [.mature]).returned 2 = 50 ∧
-    (s.run cfg [.mature]).ubd = [] ∧ ((s.run cfg [.mature]).vs 0).unbonded = true ∧
-    (s.run cfg [.mature]).notBondedPool = 200000000000000000550 := by decide
+    isOk ((s.run cfg [.mature 2]).exec cfg (.transfer 2 3 1 10)) = true ∧ (s.run cfg [.mature 2]).returned 2 = 50 ∧
+    (s.run cfg [.mature 2]).ubd = [] ∧ ((s.run cfg [.mature 2]).vs 0).unbonded = true ∧
+    (s.run cfg [.mature 2]).notBondedPool = 200000000000000000550 := by decide
+-- partial maturity: an unbonding entry and a redelegation of block 1, another unbonding entry and another redelegation
+-- of block 2; when only the unbonding period of block 1 is over the first entry (50) is paid back and the first
+-- redelegation is dropped, the second entry (30) stays in the not-bonded pool, and account 2 — whose second incoming
+-- redelegation at validator 1 is still open — is still refused a share transfer there; account 3 (redelegation of block 1
+-- only) may transfer again
+example :
+    let s := (init 5 1 [(200000000000000000000, 0), (200000000000000000000, 0)]).run cfg
+      [.delegate 2 0 700, .delegate 3 0 400, .redelegate 2 0 1 100, .redelegate 3 0 1 100, .undelegate 2 0 50, .block,
+       .redelegate 2 0 1 60, .undelegate 2 0 30, .block, .mature 1]
+    s.ubd = [(2, 0, 2, 30)] ∧ s.returned 2 = 50 ∧ s.redel = [(2, 0, 1, 2, 60, 60 * ONE)] ∧
+    isOk (s.exec cfg (.transfer 2 4 1 10)) = false ∧ isOk (s.exec cfg (.transfer 3 4 1 10)) = true ∧
+    s.notBondedPool = 30 := by decide
+-- grouped transactions: a spender (account 3) approved at two validators moves shares at both in ONE transaction; with
+-- an amount above the second allowance the whole transaction fails and the FIRST transfer is undone as well
+example :
+    let s := (init 5 1 [(200000000000000000000, 0), (200000000000000000000, 0)]).run cfg
+      [.delegate 2 0 700, .delegate 2 1 500, .approve 2 3 0 300, .approve 2 3 1 200, .block]
+    isOk (s.execAll cfg (multiFrom 3 2 4 [(0, 300), (1, 200)])) = true ∧
+    (((s.stepTx cfg (.atomic (multiFrom 3 2 4 [(0, 300), (1, 200)]))).vs 0).del 4 = some (300 * ONE)) ∧
+    (((s.stepTx cfg (.atomic (multiFrom 3 2 4 [(0, 300), (1, 200)]))).vs 1).del 4 = some (200 * ONE)) ∧
+    isOk (s.execAll cfg (multiFrom 3 2 4 [(0, 300), (1, 201)])) = false ∧
+    (((s.stepTx cfg (.atomic (multiFrom 3 2 4 [(0, 300), (1, 201)]))).vs 0).del 4 = none) ∧
+    (((s.stepTx cfg (.each (multiFrom 3 2 4 [(0, 300), (1, 201)]))).vs 0).del 4 = some (300 * ONE)) := by decide
 -- every status: a validator that was jailed and left the active set (Unbonding) still pays the rewards accrued while it
 -- was bonded when shares are transferred (all the transfer theorems above quantify over histories with jail / unjail
 -- operations and over the validator-set update at the end of every block)
@@ -887,5 +1039,15 @@ example :
 -- the refusal while the sender has an incoming redelegation is reachable
 example : isOk (((init 4 1 [(1000, 0), (1000, 0)]).run cfg [.delegate 2 0 500, .delegate 2 1 500, .redelegate 2 0 1 100]).exec cfg
     (.transfer 2 3 1 10)) = false := by decide
+
+-- sanity_closed_form: a chain of two exact slashes (5 % of 10⁶ tokens: the division is exact; then 333 of 950000: the
+-- quotient is rounded up) after a starting stake written for 7·10¹⁸ shares; and the configuration of
+-- `stake_sanity_reachable` is NOT exact
+example : SlashChain 1000000 [⟨3, 5, effFraction 50000 1000000⟩, ⟨7, 9, effFraction 333 950000⟩] 949667 :=
+  .cons (by decide) rfl (by decide) (.cons (by decide) rfl (by decide) (.nil _))
+example : incrPeriods 2 [⟨3, 5, effFraction 50000 1000000⟩, ⟨7, 9, effFraction 333 950000⟩] :=
+  ⟨by decide, by decide, trivial⟩
+example : quot36 333 950000 % ONE ≠ 0 ∧ effFraction 50000 1000000 = 50000000000000000 ∧ slashExact 50000 1000000 = true := by decide
+example : slashExact 100 (100000000000000000000 - 99) = false := by decide
 
 end FxVerif.Props.C11
